@@ -839,6 +839,30 @@ class CipherSocket(Unit):
         actual.recv = actual_in.read
         enc, dec = GhostCtx(I, 'E'), GhostCtx(I, 'D')
         w = I.call(encryption.EncryptedSocketWrapper, actual, enc, dec)
+        # fault at one point: the FIRST real send fails - interrupted by a signal (nothing written) or with a plain OSError.
+        # Whatever the wrapper does then (let it out, retry), every byte must pass through the encryptor exactly once and in
+        # order, or the ciphertext is no longer one continuous stream (seeded change C18-r9: retry that re-encrypts)
+        fault = E.fork(3, 'first-send-fault')
+        if fault:
+            real_send, state = actual.send, []
+
+            def flaky(data):
+                if not state:
+                    state.append(1)
+                    raise PyRaise(InterruptedError(4, 'Interrupted system call') if fault == 1 else OSError(113, 'No route to host'))
+                return real_send(data)
+            actual.send = flaky
+            try:
+                I.call(I.getattr_(w, 'send'), SBytes([slice_blob(plain, 0, m)]))
+                delivered = True
+            except PyRaise:
+                delivered = False
+            k = actual.out.length()
+            E.check('cipher.fault-keeps-stream', (actual.out == SBytes([slice_blob(enc.image(plain), 0, m)])) if delivered
+                    else (isinstance(k, int) and k == 0),
+                    note='after a failed first send: either the error is let out and nothing has been sent, or the retry hands the '
+                         'socket exactly E(plaintext)[0:m]')
+            return None
         I.call(I.getattr_(w, 'send'), SBytes([slice_blob(plain, 0, m)]))
         I.call(I.getattr_(w, 'send'), SBytes([slice_blob(plain, m, N)]))
         E.check('cipher.send-stream', actual.out == SBytes([slice_blob(enc.image(plain), 0, N)]),
@@ -889,6 +913,34 @@ def replay_cipher(rng=None):
         bad = bad or 'EncryptedFileObjectWrapper.read spins on a stream that has ended (%s)' % e
     if out != data:
         bad = bad or 'decrypted stream differs from the plaintext'
+    if bad is None:
+        # fault at one point: one real send is interrupted by a signal (nothing written).  Whatever reaches the socket in
+        # the end must still be the one continuous CFB8 stream of what the wrapper accepted.
+        for kind in (InterruptedError(4, 'Interrupted system call'), OSError(113, 'No route to host')):
+            c3 = encryption.create_AES_cipher(secret)
+            sink2, state = Sink(), []
+
+            class Flaky(object):
+                def send(self, d):
+                    state.append(1)
+                    if len(state) == 2:
+                        raise kind
+                    return sink2.send(d)
+            w2 = encryption.EncryptedSocketWrapper(Flaky(), c3.encryptor(), c3.decryptor())
+            accepted = b''
+            for piece in (data[:40], data[40:100], data[100:160]):
+                try:
+                    w2.send(piece)
+                    accepted += piece
+                except OSError:
+                    break
+            want = encryption.create_AES_cipher(secret).encryptor().update(accepted)
+            if sink2.data != want[:len(sink2.data)] or (accepted and len(sink2.data) != len(accepted)):
+                bad = 'after the second real send failed with %r: the socket received %d bytes that are not the continuous ' \
+                      'AES-CFB8 stream of the %d bytes the wrapper accepted (diverges at offset %d)' \
+                      % (kind, len(sink2.data), len(accepted),
+                         next((i for i, (a, b) in enumerate(zip(sink2.data, want)) if a != b), min(len(sink2.data), len(want))))
+                break
     return dict(confirmed=bad is not None, call='%d bytes through EncryptedSocketWrapper/EncryptedFileObjectWrapper' % len(data),
                 observed=bad or 'conforms')
 
